@@ -1,3 +1,66 @@
-import RlibModel.Model.Common
-/-! Line-protocol driver for engine `iter` (stub: to be written by the engine's author). -/
-def main : IO Unit := pure ()
+import RlibModel.Model.Iter
+/-! Line-protocol driver for engine `iter` (property C15).
+
+Cases:  `sub:<ty> x` / `sup:<ty> x`   collected `iter_submasks` / `iter_supermasks` of the mask `x` of type `ty`
+        `np a,b,c`                    `next_permutation` on the sequence: new content and flag
+        `perms a,b,c`                 `iter_permutations(..).collect()`
+        `n4|n4d|n8 n m i j`           collected neighbour iterators
+
+`M` is the model (`iterSubmasks`, `iterSupermasks`, `nextPermutationIdx`, `iterPermutations`, `neighbours`);
+`S` is the specification: the by-definition one (`specSubmasks`, `specSupermasks`, `specNextPermutation`,
+`specPermutations`, `specNeighbours`) where it is cheap enough, else its proved-equal fast form
+(`subsAsc`, `supsAsc`, `nextPermutation`; see `Props/C15.lean`). -/
+open Rlib Rlib.Iter
+
+def showNp : Except Panic (List Int × Bool) → String
+  | .error e => e.toString
+  | .ok (d, b) => s!"{showInts d} {showBool b}"
+
+def handle (line : String) : String :=
+  match tokens line with
+  | [] => badLine line
+  | op :: rest =>
+  match splitTy op, rest with
+  | ("sub", some t), [xs] =>
+    match parseInt? xs with
+    | some xi =>
+      let x := (wrapU t.bits xi).toNat
+      let spec := if x < 4096 then specSubmasks x else (subsAsc x).reverse
+      answer (showMasks t (iterSubmasks t.bits x)) (showMasks t spec)
+    | none => badLine line
+  | ("sup", some t), [xs] =>
+    match parseInt? xs with
+    | some xi =>
+      let x := (wrapU t.bits xi).toNat
+      let spec := if t.bits ≤ 8 then specSupermasks t.bits x else supsAsc t.bits x
+      answer (showMasks t (iterSupermasks t.bits x)) (showMasks t spec)
+    | none => badLine line
+  | ("np", none), [ds] =>
+    match parseIntsComma? ds with
+    | some d =>
+      let spec := if d.length ≤ 6 then specNextPermutation d else nextPermutation d
+      answer (showNp (nextPermutationIdx d)) (showNp (.ok spec))
+    | none => badLine line
+  | ("perms", none), [ds] =>
+    match parseIntsComma? ds with
+    | some d =>
+      if d.length ≤ 9 then
+        answer (showExcept showPerms (iterPermutations d)) (showPerms (specPermutations d))
+      else answer (showExcept showPerms (iterPermutations d)) "any"
+    | none => badLine line
+  | (kind, none), [ns, ms, is, js] =>
+    match parseNats? [ns, ms, is, js] with
+    | some [n, m, i, j] =>
+      let offs? := match kind with
+        | "n4" => some offsets4 | "n4d" => some offsets4d | "n8" => some offsets8 | _ => none
+      match offs? with
+      | some offs =>
+        let lim := 2 ^ 63 - 1
+        let inDom := n < lim ∧ m < lim ∧ i < lim ∧ j < lim
+        answer (showCells (neighbours offs n m i j))
+          (if inDom then showCells (specNeighbours offs n m i j) else "any")
+      | none => badLine line
+    | _ => badLine line
+  | _, _ => badLine line
+
+def main : IO Unit := driverMain handle
